@@ -155,6 +155,7 @@ class PathCtx:
         self._solver = None
         self.nfresh = 0; self.queries = 0; self.choices = []
         self.assumptions = []
+        self.decided = {}
     @property
     def solver(self):
         """incremental solver holding the path condition (created on demand)"""
@@ -191,6 +192,13 @@ class PathCtx:
         cond = z3.simplify(cond)
         if z3.is_true(cond): return True
         if z3.is_false(cond): return False
+        # a condition already decided on this path (structurally equal term) needs neither a query nor a decision
+        key = cond.get_id()
+        hit = self.decided.get(key)
+        if hit is not None: return hit[0]
+        if z3.is_not(cond):
+            hit = self.decided.get(cond.arg(0).get_id())
+            if hit is not None: return not hit[0]
         i = len(self.taken)
         if i < len(self.prefix):
             d = self.prefix[i]
@@ -203,6 +211,7 @@ class PathCtx:
             else: d = t_ok
         self.taken.append(d)
         self.add(cond if d else z3.Not(cond))
+        self.decided[key] = (d, cond)
         return d
     def choose(self, n, tag=''):
         """nondeterministic concrete choice 0..n-1 (every alternative is explored)"""
@@ -276,6 +285,7 @@ class Interp:
         self.order_mode = 'perm'  # 'perm': every permutation (<= max_perm entries); 'global': one of three policies per path
         self.order_skipped = 0
         self.consts_cache = {}
+        self.cp_cache = {}
     # ---------------------------------------------------------------- lookup helpers
     def fn(self, last, ty=None):
         c = self.by_last.get(last, [])
@@ -1229,6 +1239,12 @@ class Interp:
     def char_pred(self, kind, c):
         if isinstance(c, Ptr): c = c.get()
         if isinstance(c, int): return py_is_ws(c) if kind == 'ws' else py_is_alnum(c)
+        key = (kind, c.get_id())
+        hit = self.cp_cache.get(key)
+        if hit is not None: return hit[0]
+        r = self._char_pred(kind, c); self.cp_cache[key] = (r, c)
+        return r
+    def _char_pred(self, kind, c):
         ws = z3.Or([c == x for x in WS_ASCII] + [c == r[0] for r in REPS if r[1]])
         al = z3.Or([z3.And(z3.UGE(c, 48), z3.ULE(c, 57)), z3.And(z3.UGE(c, 65), z3.ULE(c, 90)), z3.And(z3.UGE(c, 97), z3.ULE(c, 122))]
                    + [c == r[0] for r in REPS if r[2]])
